@@ -104,7 +104,7 @@ pub fn bij_si(index: usize, w: [u32; 4]) -> [u32; 4] {
     })
 }
 
-//@ harness name=serpent_leaf_sbox prop=C08,C03,C20 tier=quick bits=192 est=60 desc="L: bitslice::apply_s(index, x) (sbox_e0..e7 circuits) == the paper's table S_{index mod 8} applied to each of the 32 bit lanes, for every usize index and every 128-bit x"
+//@ harness name=serpent_leaf_sbox prop=C08,C03,C20 tier=quick bits=192 est=10 desc="L: bitslice::apply_s(index, x) (sbox_e0..e7 circuits) == the paper's table S_{index mod 8} applied to each of the 32 bit lanes, for every usize index and every 128-bit x"
 verif_harness! {
     name: serpent_leaf_sbox,
     bytes: 24,
@@ -116,7 +116,7 @@ verif_harness! {
     }
 }
 
-//@ harness name=serpent_leaf_sbox_inv prop=C08,C03,C20 tier=quick bits=192 est=60 desc="L: bitslice::apply_s_inv(index, x) (sbox_d0..d7 circuits) == the inverse table of S_{index mod 8} applied to each of the 32 bit lanes, every usize index, every 128-bit x"
+//@ harness name=serpent_leaf_sbox_inv prop=C08,C03,C20 tier=quick bits=192 est=10 desc="L: bitslice::apply_s_inv(index, x) (sbox_d0..d7 circuits) == the inverse table of S_{index mod 8} applied to each of the 32 bit lanes, every usize index, every 128-bit x"
 verif_harness! {
     name: serpent_leaf_sbox_inv,
     bytes: 24,
@@ -128,7 +128,7 @@ verif_harness! {
     }
 }
 
-//@ harness name=serpent_leaf_sbox_bij prop=C01,C03 tier=quick bits=192 est=30 desc="L: apply_s_inv(i, apply_s(i, x)) == x and apply_s(i, apply_s_inv(i, x)) == x for every index and every 128-bit x (justifies the uninterpreted bijections of the round-trip harnesses)"
+//@ harness name=serpent_leaf_sbox_bij prop=C01,C03 tier=quick bits=192 est=20 desc="L: apply_s_inv(i, apply_s(i, x)) == x and apply_s(i, apply_s_inv(i, x)) == x for every index and every 128-bit x (justifies the uninterpreted bijections of the round-trip harnesses)"
 verif_harness! {
     name: serpent_leaf_sbox_bij,
     bytes: 24,
@@ -141,7 +141,7 @@ verif_harness! {
     }
 }
 
-//@ harness name=serpent_leaf_lt prop=C08,C03,C20 tier=quick bits=128 est=20 desc="L: bitslice::linear_transform == the paper's LT and linear_transform_inv == its inverse, every 128-bit x; both are mutually inverse"
+//@ harness name=serpent_leaf_lt prop=C08,C03,C20 tier=quick bits=128 est=8 desc="L: bitslice::linear_transform == the paper's LT and linear_transform_inv == its inverse, every 128-bit x; both are mutually inverse"
 verif_harness! {
     name: serpent_leaf_lt,
     bytes: 16,
@@ -155,7 +155,7 @@ verif_harness! {
     }
 }
 
-//@ harness name=serpent_key_pad prop=C08,C20 tier=quick bits=261 est=60 desc="L: expand_key(key[..len], 8 len) == key || bit 1 || zeros for every byte length len in 16..=32 (symbolic) and every key"
+//@ harness name=serpent_key_pad prop=C08,C20 tier=quick bits=261 est=10 desc="L: expand_key(key[..len], 8 len) == key || bit 1 || zeros for every byte length len in 16..=32 (symbolic) and every key"
 verif_harness! {
     name: serpent_key_pad,
     bytes: 33,
@@ -200,7 +200,7 @@ pub fn stub_expand_key(source: &[u8], len_bits: usize) -> [u8; 32] {
     crate::expand_key(source, len_bits)
 }
 
-//@ harness name=serpent_key_schedule prop=C08,C20 tier=quick bits=517 stub=1 est=200 desc="W: Serpent::new_from_slice(key[..len]) for symbolic len in 16..=32, every key: expand_key is called exactly once with (key[..len], 8 len) and, for every 256-bit value P it may return, round_keys == oracle(P): prekey recurrence w_i = (w_i-8 ^ w_i-5 ^ w_i-3 ^ w_i-1 ^ PHI ^ i) <<< 11, K_i = S_{(3-i) mod 8}(w_4i..w_4i+3), little-endian words; apply_s uninterpreted (shared); with serpent_key_pad: P = key || 1 || 0.."
+//@ harness name=serpent_key_schedule prop=C08,C20 tier=quick bits=517 stub=1 est=230 desc="W: Serpent::new_from_slice(key[..len]) for symbolic len in 16..=32, every key: expand_key is called exactly once with (key[..len], 8 len) and, for every 256-bit value P it may return, round_keys == oracle(P): prekey recurrence w_i = (w_i-8 ^ w_i-5 ^ w_i-3 ^ w_i-1 ^ PHI ^ i) <<< 11, K_i = S_{(3-i) mod 8}(w_4i..w_4i+3), little-endian words; apply_s uninterpreted (shared); with serpent_key_pad: P = key || 1 || 0.."
 verif_harness! {
     name: serpent_key_schedule,
     bytes: 65,
@@ -252,7 +252,7 @@ fn arb_state(inp: &[u8; 544]) -> (Serpent, [[u32; 4]; 33], [u8; 16]) {
     (Serpent { round_keys: rk }, rk, take(inp, 528))
 }
 
-//@ harness name=serpent_wire_enc prop=C08,C03,C20 tier=quick bits=4352 stub=1 est=200 desc="W: encrypt_block on an arbitrary round-key state (superset of all keys), every block == oracle 32 rounds (key mixing, S_{i mod 8}, LT, last round without LT + K_32); apply_s uninterpreted (shared)"
+//@ harness name=serpent_wire_enc prop=C08,C03,C20 tier=quick bits=4352 stub=1 est=75 desc="W: encrypt_block on an arbitrary round-key state (superset of all keys), every block == oracle 32 rounds (key mixing, S_{i mod 8}, LT, last round without LT + K_32); apply_s uninterpreted (shared)"
 verif_harness! {
     name: serpent_wire_enc,
     bytes: 544,
@@ -266,7 +266,7 @@ verif_harness! {
     }
 }
 
-//@ harness name=serpent_wire_dec prop=C08,C03,C20 tier=quick bits=4352 stub=1 est=200 desc="W: decrypt_block on an arbitrary round-key state, every block == oracle inverse rounds; apply_s_inv uninterpreted (shared)"
+//@ harness name=serpent_wire_dec prop=C08,C03,C20 tier=quick bits=4352 stub=1 est=105 desc="W: decrypt_block on an arbitrary round-key state, every block == oracle inverse rounds; apply_s_inv uninterpreted (shared)"
 verif_harness! {
     name: serpent_wire_dec,
     bytes: 544,
@@ -280,7 +280,7 @@ verif_harness! {
     }
 }
 
-//@ harness name=serpent_roundtrip_ed prop=C01,C03 tier=quick bits=4352 stub=1 est=200 desc="W: decrypt(encrypt(b)) == b on an arbitrary round-key state (superset of all keys of all lengths), every block; S-box layers are uninterpreted mutually inverse permutations (leaf lemma serpent_leaf_sbox_bij), real linear transformations"
+//@ harness name=serpent_roundtrip_ed prop=C01,C03 tier=quick bits=4352 stub=1 est=160 desc="W: decrypt(encrypt(b)) == b on an arbitrary round-key state (superset of all keys of all lengths), every block; S-box layers are uninterpreted mutually inverse permutations (leaf lemma serpent_leaf_sbox_bij), real linear transformations"
 verif_harness! {
     name: serpent_roundtrip_ed,
     bytes: 544,
@@ -295,7 +295,7 @@ verif_harness! {
     }
 }
 
-//@ harness name=serpent_roundtrip_de prop=C01,C03 tier=quick bits=4352 stub=1 est=200 desc="W: encrypt(decrypt(b)) == b on an arbitrary round-key state, every block; S-box layers uninterpreted mutually inverse permutations"
+//@ harness name=serpent_roundtrip_de prop=C01,C03 tier=quick bits=4352 stub=1 est=160 desc="W: encrypt(decrypt(b)) == b on an arbitrary round-key state, every block; S-box layers uninterpreted mutually inverse permutations"
 verif_harness! {
     name: serpent_roundtrip_de,
     bytes: 544,
